@@ -12,6 +12,10 @@ func bfs(scn string, depth int, budget float64, params map[string]any, seeds ...
 	return Stage{Binary: "badger.coarse", Kind: "bfs", Scenario: scn, Depth: depth, NShard: 16, BudgetS: budget, Params: params, Seeds: seeds, MaxFrontier: 60000}
 }
 
+func en(scn string, nshard int, budget float64, params map[string]any) Stage {
+	return Stage{Binary: "badger.coarse", Scenario: scn, NShard: nshard, BudgetS: budget, Params: params}
+}
+
 func seq(s string) []string {
 	if s == "" {
 		return []string{}
@@ -76,7 +80,7 @@ func init() {
 		// merges L0 into itself); the first merge leaves a "big" L0 table (>= 2 x MemTableSize) holding
 		// key a, which later L0->L0 merges exclude
 		l0l0 := prm("oracle", "c12", "keys", 1, "bulk", true, "mem_table_size", 32<<10, "value_threshold", 1024, "l0_tables", 2, "max_levels", 3, "ops", "Sa Da U F C0 C1 T A")
-		fat := "U U U U F "    // a 16 KiB L0 table of filler keys f0..f9
+		fat := "U U U U F "      // a 16 KiB L0 table of filler keys f0..f9
 		deep := "Ux Ux Ux Ux F " // the same with keys x0..x9 (disjoint from a and f*, so deeper levels do not overlap L0)
 		// last level 32 KiB, then 48 KiB into the level above it (score 3), then four aged L0 tables, the first holding a
 		l0a := deep + deep + "C0 " + deep + deep + deep + "C0 Sa " + fat + fat + fat + fat + "A C0"
@@ -114,11 +118,13 @@ func init() {
 		[]Stage{bfs("lsm", 6, 300, prm("oracle", "c13", "nvk", 1, "keys", 1)), bfs("lsm", 6, 300, prm("oracle", "c13", "nvk", 2, "keys", 1)), bfs("lsm", 5, 300, prm("oracle", "c13", "nvk", 1000, "keys", 2)),
 			bfs("lsm", 5, 600, prm("oracle", "c13", "nvk", 2, "keys", 1), seq("Sa Sa T"), seq("Sa Sa Sa T Sa"), seq("Sa F Sa F T"), seq("Sa Ea Sa T Sa")),
 			bfs("lsm", 4, 300, prm("oracle", "c13", "nvk", 3, "keys", 2), seq("Sa Sa Sb Sa T Sa"), seq("Sa Sb F Sa Sb F T"))})
-	planTable["C14"] = lsmPlan("Same state space as C12 including close/re-open transitions; after every transition: levels >= 1 sorted with disjoint ranges, no user key split across two tables of a level, table ids unique, production validate() passes, in-memory levels == MANIFEST == .sst files on disk; Open after any history succeeds.",
+	planTable["C14"] = lsmPlan("Same state space as C12 including close/re-open transitions; after every transition: levels >= 1 sorted with disjoint ranges, no user key split across two tables of a level, table ids unique, production validate() passes, in-memory levels == MANIFEST == .sst files on disk; Open after any history succeeds. The same structural oracle runs after DropPrefix / DropAll transitions, on every recovered crash image of short histories, and after every StreamWriter load of the C26 enumeration.",
 		stateRule,
 		[]Stage{bfs("lsm", 4, 60, prm("oracle", "c14", "keys", 3, "reopen", true)),
 			// drops: DropPrefix over a deeper level holding one table per key pair (rewrites of non-adjacent tables must not overlap the table between them)
-			bfs("lsm", 2, 40, prm("oracle", "c29", "mode", "normal", "keyset", "drop", "keys", 6, "drops", true, "reopen", true, "snapshots", false, "l0_tables", 1, "value_threshold", 1024, "big_size", 400, "ops", "Sp1a Sq F C0 Yp1 Yp1,q Yp1a,qq Yp1a,p1 V R"), seq("Bp1a Bp1b Bp2a Bp2b Bq Bqq F C0"))},
+			bfs("lsm", 2, 40, prm("oracle", "c29", "mode", "normal", "keyset", "drop", "keys", 6, "drops", true, "reopen", true, "snapshots", false, "l0_tables", 1, "value_threshold", 1024, "big_size", 400, "ops", "Sp1a Sq F C0 Yp1 Yp1,q Yp1a,qq Yp1a,p1 V R"), seq("Bp1a Bp1b Bp2a Bp2b Bq Bqq F C0")),
+			// crash-interrupted histories and stream-writer loads: the recovered / loaded tree must be well formed too
+			en("crash08", 16, 40, prm("oracle", "c14", "len", 3, "alphabet", "T2 WB F C DP")), en("c26sw", 16, 30, nil)},
 		[]Stage{bfs("lsm", 6, 600, prm("oracle", "c14", "keys", 3, "reopen", true)),
 			bfs("lsm", 4, 600, prm("oracle", "c29", "mode", "normal", "keyset", "drop", "keys", 6, "drops", true, "reopen", true, "snapshots", false, "l0_tables", 1, "value_threshold", 1024, "big_size", 400, "ops", "Sp1a Sq Dp1a F C0 C1 Yp1 Yp1,q Yp1a,qq Yp1a,p1 Yp V R"), seq("Bp1a Bp1b Bp2a Bp2b Bq Bqq F C0"))})
 	planTable["C36"] = lsmPlan("Managed-mode histories with caller-chosen, non-monotonic commit timestamps (CommitAt and per-entry SetEntryAt through a managed write batch), deletes at chosen timestamps, discard-timestamp moves, flushes and compactions; after every transition reads at every timestamp >= the discard timestamp equal the reference model and Item.Version equals the caller's timestamp.",
@@ -139,9 +145,6 @@ func init() {
 			}
 			return p
 		}
-	}
-	en := func(scn string, nshard int, budget float64, params map[string]any) Stage {
-		return Stage{Binary: "badger.coarse", Scenario: scn, NShard: nshard, BudgetS: budget, Params: params}
 	}
 	planTable["C20"] = enumPlan("exploration",
 		"All byte strings of length 1-3 (quick) / 1-4 (thorough) over {00,01,7f,80,ff} plus limit-length keys, crossed with 10 boundary versions: KeyWithTs/ParseKey/ParseTs round-trip, CompareKeys and SameKey on ALL ordered pairs against (user key ascending, version descending); header Encode/Decode/DecodeFrom, ValueStruct Encode/EncodeTo/Decode/EncodedSize and valuePointer Encode/Decode on all tuples of boundary field values.",
@@ -240,9 +243,11 @@ func init() {
 		[]Stage{en("crash10", 16, 900, prm("oracle", "c08", "sync_writes", true, "len", 5, "alphabet", "T2 TV TD WB F C R GC"))})
 
 	planTable["C11"] = crashPlan("After every recovery of every crash image (page-cache images at every persistence step, including clean close/re-open steps inside the histories) the maximum stored version is dumped (all versions, internal keys, and the memtable max version), then a new transaction writes every key: each new Item.Version must exceed that maximum and reads must return the new values.",
-		"Piggy-backs on the C08 image enumeration; re-opens after Load / StreamWriter / DropAll are covered by the C24/C26/C29 checks' own post-conditions.",
-		[]Stage{en("crash08", 16, 80, prm("oracle", "c11", "len", 4, "alphabet", "T2 TD WB F C R DA"))},
-		[]Stage{en("crash08", 16, 900, prm("oracle", "c11", "len", 5, "alphabet", "T2 TV TD WB F C R DA DP"))})
+		"Piggy-backs on the C08 image enumeration (which contains DropAll / DropPrefix histories); the StreamWriter and Backup/Load enumerations of C26 / C24 are run as further stages because they end with the same post-condition (new commit above every loaded version, read back).",
+		[]Stage{en("crash08", 16, 80, prm("oracle", "c11", "len", 4, "alphabet", "T2 TD WB F C R DA")),
+			// the other ways a database comes into being: StreamWriter.Flush and Load (their checks end with the same post-condition)
+			en("c26sw", 16, 40, nil), en("c24seq", 16, 40, prm("len", 2))},
+		[]Stage{en("crash08", 16, 900, prm("oracle", "c11", "len", 5, "alphabet", "T2 TV TD WB F C R DA DP")), en("c26sw", 16, 600, prm("full", true)), en("c24seq", 16, 600, prm("len", 4))})
 
 	planTable["C02"] = func(q bool) *Plan {
 		p := &Plan{Level: "model_checking", Engine: "E-sched",
